@@ -39,6 +39,10 @@ def run(tier, seed):
     if tier == "quick":
         rng.shuffle(sfam)
         sfam = sfam[:60]
+    # here the points inside the ordered-index updates are decision points
+    tree_points = ["tree_remove", "tree_insert", "tree_publish", "sweep_remove", "sweep_post", "ins_create", "ins_read", "inc_create",
+                   "iia_guard", "lazy_guard", "inc_guard"]
+    sfam = [(n, dict(p, points=tree_points)) for n, p in sfam]
     res = ce.run_dfs(fxv, rd, sfam, "sweepidx", maxsched=300 if tier == "quick" else 2000, preempt=2)
     collect(PROP, res, rd, ["RangeStable"], viol, cst)
     free = [("free_rng_%d" % i, ["--seed", str(rng.randrange(1 << 30)), "--threads", "3", "--ops", "25", "--keys", "4",
